@@ -166,6 +166,8 @@ SendsOnlyWithQuorum(n, b, got, f, sentFlag) ==
 \* what is included was sent by somebody; a request finished on chain leaves the pending set
 IncludedWasSent(hash, sentHashes) == hash \in sentHashes
 FinishedGone(req, pend)           == req \notin pend
+\* ... and the node that stores that block forgets what its service held for the request (held = keys <<node, req>>)
+FinishedForgotten(k, held)        == k \notin held
 \* a plain request (callback does not throw, system fee plenty for a short result) is finished by a HALTed transaction
 \* that notifies and calls back exactly once
 \* i = [code, state, resp, cb, sys, rlen] of the included transaction
